@@ -178,7 +178,7 @@ GRADE_SELECT = {
 }
 
 
-@rule("C03.table", props=["C03", "C14"], min_instances=28, mutants=[
+@rule("C03.table", props=["C03", "C14"], min_instances=42, mutants=[
     ("cp filter reads the transposed sign with dict.get (bypasses the lazy table)", ("codegen", "filter_func = lambda kx, ky, k_out: (algebra.signs[kx, ky] - algebra.signs[ky, kx])", "filter_func = lambda kx, ky, k_out: algebra.signs[kx, ky] != algebra.signs.get((ky, kx))")),
     ("cp halves nothing but drops the sign", ("codegen", "            termstr = vx * vy if sign > 0 else (- vx * vy)", "            termstr = vx * vy if sign > 0 or filter_func else (- vx * vy)")),
 ])
@@ -192,6 +192,9 @@ def table(ctx):
         reps = {k: v + (None, False) for k, v in {**REPS, **(THOROUGH_REPS if ctx.tier == "thorough" else {})}.items()}
         reps[BASIS_REP[0]] = (BASIS_REP[1], BASIS_REP[3], BASIS_REP[4], BASIS_REP[2], False)
         reps["lazily filled sign table (d > 6)"] = REPS["sparse-overlap[+,-,+]"] + (None, True)
+        # operands of different grade profiles: the top grade of one exceeds the top grade of the other
+        reps["rotor x vector[+,+,-]"] = ([1, 1, -1], (0, 3, 5), (1, 2, 4), None, False)
+        reps["vector x rotor[+,+,-]"] = ([1, 1, -1], (4, 1), (6, 0, 3), None, False)
         for rep_name, (signature, xk, yk, basis, lazy) in reps.items():
             c = f"codegen.{row.codegen}#table:{rep_name}"
             got = run_product(ctx, repo, row.codegen, signature, xk, yk, c, basis=basis, lazy=lazy)
